@@ -187,6 +187,8 @@ def build(repo):
         for accn, accv, accw in (("", "false", "accumulator free"), ("_acc", "true", "accumulator holds a live value")):
             add("pp_short_%s%s" % (word, accn), H16 % {"name": "pp_short_%s%s" % (word, accn), "what": "short variable, %s, %s" % (word, accw), "vt": "Short", "operand": abs16, "pp": pp, "arith": ar, "acc": accv},
                 ["C01", "C15"], "plusplus-short-%s%s" % (word, accn.replace("_", "-")), "16-bit %s of a short (%s): value +-1 mod 2^16, X/Y and a live A preserved, flags belief true" % (word, accw))
+            add("pp_shortptr_abs_%s%s" % (word, accn), H16 % {"name": "pp_shortptr_abs_%s%s" % (word, accn), "what": "element of an array of shorts designated by a constant index, %s, %s" % (word, accw), "vt": "ShortPtr", "operand": abs16, "pp": pp, "arith": ar, "acc": accv},
+                ["C01", "C15"], "plusplus-shortptr-abs-%s%s" % (word, accn.replace("_", "-")), "16-bit %s of sa[k] (array of shorts, constant index, %s): value, registers, flags belief" % (word, accw))
             add("pp_shortptr_x_%s%s" % (word, accn), H16 % {"name": "pp_shortptr_x_%s%s" % (word, accn), "what": "array of shorts indexed by X, %s, %s" % (word, accw), "vt": "ShortPtr", "operand": absx, "pp": pp, "arith": ar, "acc": accv},
                 ["C01", "C15"], "plusplus-shortptr-x-%s%s" % (word, accn.replace("_", "-")), "16-bit %s of v[X] (array of shorts, %s): value, registers, flags belief" % (word, accw))
         sign = "wrapping_add" if pp == "true" else "wrapping_sub"
